@@ -247,7 +247,7 @@ class C19(Check):
         try:
             for p in plans:
                 ref_out.append(do_thread_plan(ref_world, p))
-            ref_desc = {r: describe_class(c) for r, c in ref_world.classes.items()}
+            ref_desc = {r: describe_class(c) for r, c in ref_world.classes.items() if not r.startswith("__")}
         except Exception as e:
             ref_exc = e
         if ref_exc is not None:
@@ -309,6 +309,8 @@ class C19(Check):
                             {"thread": i, "got": _short(t.result), "want": _short(ref_out[i]), "plan": plans[i]})
         if not sched.deadlock and not sched.capped:
             for role, cls in world.classes.items():
+                if role.startswith("__"):
+                    continue
                 got = describe_class(cls)
                 want = ref_desc[role]
                 if got != want:
